@@ -45,7 +45,7 @@ claim('C15', 'proof',
       'Sweeping `_propose`/`_replay` and seeded Random `_propose`/`_replay` are step-equivalent (same successor call, exactly one rng draw). '
       'De-duplication memory: `Deduping._feedback` (live) and `Deduping._replay` (recovery) are step-equivalent -- each hands (dna, reward) to `_add_dna_to_cache` exactly once, '
       'unconditionally, looks at the memory in no other way, and delegates once to the inner algorithm (`feedback` / `_replay`); `_add_dna_to_cache` appends the reward to the entry of the '
-      'DNA\'s dedup key and leaves every other entry untouched (cache shapes: empty / key present with 1, 2, 3 rewards / another key present; rewards symbolic).',
+      'DNA\'s dedup key and leaves every other entry untouched (5 obligations, shape-bounded: cache shapes empty / key present with 1, 2, 3 rewards / another key present; rewards symbolic).',
       'Trusted: engine; subclasses\' `_replay`/`_feedback` do not touch the base counters (A-SUBTYPE). `Deduping._propose` (attempt loop, automatic reward) and the Evolution family are covered by '
       'the bounded tier only (all crash points of short runs).',
       'contract-based deductive verification (pyvc loop invariants, relational step contracts) + bounded stand-in', 'DESIGN.md 5/C15')
@@ -113,7 +113,7 @@ claim('C20', 'proof',
       '(value, keys, names, parent) as opaque RAW values; every argument reaching an HTML sink (Html.element tag / inner_html / css classes / attributes, '
       'Html + operand, Html.write) is shown to be a literal, a number, an identifier, escaped text or library-built Html on every path and every option '
       'combination; `Html.escape` sends text through html.escape; `Html.element` itself writes every attribute value (css classes, inline styles, keyword '
-      'properties) into the open tag only after html.escape AND the replacement of the double quote, for every combination of given / absent attributes. Rendering writes nothing to the value. Well-formedness of the whole document, presence '
+      'properties) into the open tag only after html.escape AND the replacement of the double quote, for every combination of given / absent attributes (2 obligations, shape-bounded: the loop over **properties runs over two keyword properties). Rendering writes nothing to the value. Well-formedness of the whole document, presence '
       'of every key/leaf and the remaining render methods (`complex_value`, `content`, controls) are covered by the bounded tier with a strict tokenizer.',
       'Trusted: engine; html.escape removes < > & " \' (stdlib); class names are identifiers; view options (title, colors, css classes) are not user data.',
       'contract-based deductive verification (pyvc escape-flow/trace obligations) + bounded stand-in (strict HTML tokenizer)', 'DESIGN.md 5/C20')
@@ -198,7 +198,7 @@ claim('C18', 'proof',
       'particular the name of *args is not a keyword parameter): 1 unbounded obligation. Late binding: `Functor._on_change` (run after every rebind / attribute assignment) '
       'adds the argument to `_specified_args` -- the set a call replays -- whatever its value, also when it compares equal to the default (True == 1), drops it exactly when the new '
       'value is the missing marker, moves it between the default / non-default books by the comparison with the field default, and touches no book for a change below an '
-      'argument (the two comparisons are independent Boolean unknowns): 4 unbounded obligations. Construction-time binding of `Functor.__init__` is executed symbolically '
+      'argument (the two comparisons are independent Boolean unknowns): 4 obligations with the stated bound of ONE update per call (the loop body runs once), hence shape-bounded, not counted as proved. Construction-time binding of `Functor.__init__` is executed symbolically '
       'against a specification of Python\'s binding rule (positional i binds parameter i; surplus positionals go to *args or raise TypeError; a keyword naming a '
       'bound parameter raises TypeError; the symbolic constructor receives exactly that binding) for every signature shape with <= 3 positional parameters (+- *args), '
       '<= 4 positional and <= 2 keyword arguments, values symbolic: 300 obligations, all discharged, but with a stated bound on the signature size, so they are a '
